@@ -465,10 +465,18 @@ def pytest_sessionfinish(session, exitstatus):
                     )
                     continue
 
+                # the files with the changes which are already approved ...
+                approved = ChangeRecorder()
+                apply_all(used_changes, approved)
+                approved.virtual_write()
+
+                # ... compared with the files which have the changes of this category too.
+                # All changes are computed together, two separately computed change sets
+                # for the same list/dict/call would overlap.
                 cr = ChangeRecorder()
-                apply_all(used_changes, cr)
-                cr.virtual_write()
-                apply_all(changes[flag], cr)
+                apply_all(used_changes + changes[flag], cr)
+                for file in cr.files():
+                    file.source = approved.get_source(file.filename).source
 
                 any_changes = False
 
